@@ -76,7 +76,7 @@ func c17Forwarder(c *Check) {
 	// unwrap: in-package call on the consumed message returning (string, *Message, error)
 	var unwraps []ssa.CallInstruction
 	for _, cl := range CallsIn(fn) {
-		cal := cl.Common().StaticCallee()
+		cal := CalleeFn(cl.Common())
 		if cal == nil || cal.Pkg != fn.Pkg {
 			continue
 		}
@@ -192,7 +192,7 @@ func c17ForwarderPublisher(c *Check) {
 	// wrap calls: in-package (string, *Message) -> (*Message, error)
 	var wraps []ssa.CallInstruction
 	for _, cl := range CallsIn(fn) {
-		cal := cl.Common().StaticCallee()
+		cal := CalleeFn(cl.Common())
 		if cal == nil || cal.Pkg != fn.Pkg {
 			continue
 		}
@@ -316,7 +316,7 @@ func c17Requeuer(c *Check) {
 	// topic generator
 	var gens []ssa.CallInstruction
 	for _, cl := range CallsIn(fn) {
-		if cl.Common().IsInvoke() || cl.Common().StaticCallee() != nil {
+		if cl.Common().IsInvoke() || CalleeFn(cl.Common()) != nil {
 			continue
 		}
 		if AllOrigins(cl.Common().Value, exportedFieldLoad("GeneratePublishTopic")) {
